@@ -37,6 +37,11 @@ func (s *c09Sites) flush() int {
 	sort.Strings(keys)
 	for _, key := range keys {
 		f := s.find[key]
+		if f.bad && len(s.prob) > 0 {
+			s.k.r.Undecide("C09 (exploration incomplete) %s %s: %s", f.rule, f.construct, f.msg)
+			s.k.r.OK(f.rule, f.construct, f.pos, "not decided: exploration incomplete")
+			continue
+		}
 		s.k.r.Check(!f.bad, f.rule, f.construct, f.pos, f.msg, f.msg)
 	}
 	for _, p := range s.prob {
